@@ -5,4 +5,5 @@ EpsDefault == <<1, 10000>>
 EpsCoarse  == <<1, 100>>
 EpsFine    == <<1, 1000000>>
 EpsQuarter == <<1, 4>>
+EpsZero    == <<0, 1>>
 =============================================================================
